@@ -111,6 +111,15 @@ else:
             'I4': ('ovsdb/schema.go, ovsdb/bindings.go, ovsdb/error.go, ovsdb/update*.go, mapper/mapper.go, mapper/info.go', 'restructured error handling that keeps every failure visible to the caller: inverted conditions (`if err == nil {{ ... }}` vs early return), named results, errors wrapped with %w, errors collected and joined instead of returning the first (all still reported), helper extraction, table-driven dispatch with the same entries'),
             'I5': ('updates/references.go, updates/updates.go, updates/merge.go, cache/cache.go (Update, Delete, Purge, Populate*, index maintenance)', 'equivalent restructuring: helper extraction in the reference tracker loop and in index maintenance, renamed locals, pre-sizing, early returns, clearer errors, comments, replacing a manual loop with a helper'),
         }
+    if kind == 'evolve3':
+        groups = {
+            'J1': ('server/monitor.go (filter, filter2, filterColumns, columnSet, requestFor, Send, Send2, Send3) and the monitor handlers of server/server.go', 'equivalent restructuring: one projection helper, a predicate helper for "is this kind of change selected", filter and filter2 sharing a per-table walker, helper that adds a table update to the result, table-driven dispatch, pre-sizing, clearer logging; keep every notification byte-for-byte'),
+            'J2': ('client/client.go: monitor, Monitor, MonitorAll, MonitorCancel, the update/update2/update3 handlers, applyDeferredUpdates, isCacheConsistent/waitForCacheConsistent', 'equivalent restructuring: the three notification handlers sharing helpers (argument decoding, "buffer if deferred", recording the transaction id), the deferral arming/replay moved into methods of database, splitting monitor() into request building / call / apply phases with the same order of side effects and the same locks, clearer errors, comments'),
+            'J3': ('cache/cache.go: eventProcessor (AddEvent, Run, AddEventHandler), TableCache accessors (Table, Tables, Mapper, DatabaseModel, Purge), Populate/Populate2/ApplyCacheUpdate; mapper/mapper.go (getData, NewRow, NewCondition*, NewMutation) and mapper/info.go', 'equivalent restructuring: dispatch of an event to a handler moved into a helper, handler snapshot taken under the lock then used, accessor helpers that take the lock, per-column helpers in the mapper (convert + store), early returns, pre-sizing, clearer errors'),
+            'J4': ('ovsdb/error.go, ovsdb/notation.go, ovsdb/bindings.go, ovsdb/schema.go, modelgen/generator.go, modelgen/table.go, modelgen/dbmodel.go, cmd/modelgen/main.go', 'restructured error handling that keeps every failure visible to the caller (log AND return, wrap with %w, named results, helper extraction), table-driven variants of switches with the same entries, new String()/helper functions, generator helper extraction that renders byte-identical output'),
+            'J5': ('database/transaction/transaction.go, database/inmemory/inmemory.go, updates/mutate.go, updates/difference.go, updates/updates.go', 'equivalent restructuring: per-operation helpers, result bookkeeping helpers, helpers for the in-place set/map algorithms that keep the write-back, early returns, pre-sizing, clearer error details, comments, a defensive check that duplicates an existing one'),
+            'J6': ('anywhere in the library (client, cache, server, database, updates, ovsdb, mapper, model)', 'small features a maintainer would merge: a new read-only accessor that returns copies and takes the lock, an extra metric or log line, a new client option that defaults to today\'s behaviour, a new server-side helper RPC that only reads, a new exported pure function with its documentation, context plumbing that keeps defaults'),
+        }
     for k, (focus, kinds) in groups.items():
         wd = base + '/' + k
         wt(wd)
